@@ -560,7 +560,7 @@ def hassh(idx: int, extra: str, count: int) -> bool:
         names = [chosen if chosen is not None else raw, pool[0]][:count]
         lists[slot] = names
         items[slot] = [(_member(kind, name) if name is not raw else extra) for name in names]
-    message = sp.SshKeyExchangeInit(*items)
+    message = sp.SshKeyExchangeInit(*items, cookie=bytes(range(16)))     # (the default cookie is random)
 
     class _Hashlib(object):  # pylint: disable=too-few-public-methods
         @staticmethod
